@@ -15,9 +15,16 @@ Genuine defect found on the pinned tree: a datagram frame with empty contents, o
 bytes (batch: 65 501), sent by A to B ends *B's* connection (known_findings.d/C05.json,
 proposed_fixes/C05.diff).
 
-Mutation self-test (recorded 2026-09-22, with proposed_fixes/C05.diff applied so that the tree is
-clean): the size check of the fix weakened to `>` one byte higher (65 503-byte datagrams forwarded to the
-receiver again) -> VIOLATION kind=receiver_closed input=max-length; undone -> exit 0 without KNOWN-FINDING.
+Fix verification (recorded 2026-09-22): with proposed_fixes/C05.diff applied the quick check exits 0 with
+no KNOWN-FINDING line; on the unchanged tree it prints the two KNOWN-FINDING lines and exits 0.
+Mutation self-test (recorded 2026-09-22, on the tree with the fix applied): `Clients::send_packet` calling
+`client.active.start_shutdown()` when the receiver's queue is Full ("prune slow receivers") -> `VIOLATION
+property=C05` in the flood family (a stalled receiver with queue capacity 1 is found closed once it reads
+again; a signature no known finding matches); undone -> exit 0.
+This self-test also exposed (and the fix of) a vacuity bug of an intermediate version of the comparison
+(it stopped at the scripted prefix); `conforms` now raises a tool error when nothing was compared.
+(Mutations are applied to a private copy of /repo and /verif under /var/tmp, built with a trimmed copy of
+the harness crate, so that the shared /repo is never left mutated while others build against it.)
 """
 import json
 
@@ -54,7 +61,9 @@ def describe(g, i, got, exp):
             ge, ee = got["conns"][c], exp["conns"].get(c)
             if ee is None or ge == ee:
                 continue
-            if ge[0] and not ee[0]:
+            if ge[0] and not ee[0] and st["op"] != "frame":
+                kind = "closed_unexpectedly"      # e.g. a cancellation that only shows once the client reads again
+            elif ge[0] and not ee[0]:
                 kind = "sender_closed" if c == st["c"] else "receiver_closed"
                 if c != st["c"]:
                     victim = "addressee" if CONNS.get(c) == st.get("dst") else "bystander"
@@ -107,7 +116,9 @@ def run(ctx):
         if name == "each-class" and len(classes) != 12:
             raise rc.ToolError("vacuity: generator used only classes %s" % sorted(classes))
         obs = rc.execute(ctx, "c05-%s" % name, scen, CONNS, consts["PktCap"])
-        rc.judge(ctx, "C05", scen, obs, describe)
+        bad = rc.judge(ctx, "C05", scen, obs, describe)
+        if not ctx.quick and not bad:
+            rc.binding_selftest(ctx, "C05", scen, obs)
         for g, o in zip(scen, obs):
             if any(s["op"] == "frame" and s["cls"] in rc.UNDELIVERABLE_INPUT and s["dst"] == "B" for s in g["steps"]):
                 ctx.sample(rc.sample_of(g, o, rc.p_c05), limit=4)
